@@ -10,7 +10,7 @@ Proof.
   - destruct (step (core x) (Submit c h)) eqn:E; [|discriminate]. inversion H; subst. exists [Submit c h]. cbn [run core]. now rewrite E.
   - destruct (sendloop x && memb c (chq x) && negb (memb c (inb x)) && is_queued (e_st (ent (core x) c))); [|discriminate].
     inversion H; subst. exists []. reflexivity.
-  - destruct (sendloop x && round_ok (pri x) (inb x) takes); [|discriminate].
+  - destruct (round_guard x lim takes); [|discriminate].
     destruct (run (core x) (build_labels (ent (core x)) (next_id (core x)) takes)) eqn:E; [|discriminate].
     inversion H; subst. eexists; exact E.
   - destruct (sendloop x); [|discriminate].
@@ -43,15 +43,16 @@ Proof.
   - intros H. exists c. split; auto. apply Nat.eqb_refl.
 Qed.
 
-Lemma round_discipline : forall x takes x', xstep x (XBuildRound takes) = Some x' ->
+Lemma round_discipline : forall x lim takes x', xstep x (XBuildRound lim takes) = Some x' ->
   (forall t, In t takes -> In t (inb x))
   /\ (forall r, In r (inb x') -> In r (inb x) /\ ~ In r takes /\ pri x r < high_pri /\ forall t, In t takes -> pri x r <= pri x t)
   /\ pri x' = pri x.
 Proof.
-  intros x takes x' H. simpl in H.
-  destruct (sendloop x && round_ok (pri x) (inb x) takes) eqn:G; [|discriminate].
+  intros x lim takes x' H. simpl in H.
+  destruct (round_guard x lim takes) eqn:G; [|discriminate].
   destruct (run (core x) (build_labels (ent (core x)) (next_id (core x)) takes)); [|discriminate].
   inversion H; subst; clear H. simpl.
+  unfold round_guard in G. apply andb_prop in G. destruct G as [G _].
   apply andb_prop in G. destruct G as [_ G]. unfold round_ok in G.
   apply andb_prop in G. destruct G as [G G3]. apply andb_prop in G. destruct G as [_ G2].
   rewrite forallb_forall in G2, G3.
@@ -94,19 +95,107 @@ Proof.
   - destruct Hin as [E|Hin]; [inversion E; subst; auto | destruct (IH _ _ _ _ Hin); auto].
 Qed.
 
-Lemma round_ids_consecutive : forall x takes x', xstep x (XBuildRound takes) = Some x' ->
+Lemma round_ids_consecutive : forall x lim takes x', xstep x (XBuildRound lim takes) = Some x' ->
   let ps := build_pairs (ent (core x)) (next_id (core x)) takes in
   alloc (core x') = rev ps ++ alloc (core x)
   /\ next_id (core x') = next_id (core x) + length ps
   /\ map fst ps = seq (S (next_id (core x))) (length ps)
   /\ (forall i c, In (i, c) ps -> In c takes /\ e_canceled (ent (core x) c) = false).
 Proof.
-  intros x takes x' H. unfold xstep in H.
-  destruct (sendloop x && round_ok (pri x) (inb x) takes); [|discriminate].
+  intros x lim takes x' H. unfold xstep in H.
+  destruct (round_guard x lim takes); [|discriminate].
   destruct (run (core x) (build_labels (ent (core x)) (next_id (core x)) takes)) eqn:E; [|discriminate].
   inversion H; subst; clear H. cbn [core].
   destruct (build_run_ids _ _ _ _ _ eq_refl E) as (A & B & C).
   split; [exact A|]. split; [exact B|]. split; [exact C|]. intros i c Hin. eapply build_pairs_in; eauto.
+Qed.
+
+(* nothing popped is lost *)
+Lemma build_labels_other : forall takes f n s s' c, ~ In c takes -> run s (build_labels f n takes) = Some s' -> ent s' c = ent s c.
+Proof.
+  induction takes as [|c0 r IH]; simpl; intros f n s s' c Hn H; [inversion H; subst; auto|].
+  assert (c <> c0) by (intros E; subst; apply Hn; now left).
+  assert (Hr : ~ In c r) by (intros Hin; apply Hn; now right).
+  destruct (e_canceled (f c0)); cbn [run] in H.
+  - destruct (step s (DropCanceled c0)) as [s1|] eqn:E; [|discriminate]. rewrite (IH _ _ _ _ _ Hr H).
+    simpl in E. destruct (e_st (ent s c0)); try discriminate. destruct (e_canceled (ent s c0)); try discriminate.
+    inversion E; subst. simpl. now apply upd_other.
+  - destruct (step s (Build c0 (S n))) as [s1|] eqn:E; [|discriminate]. rewrite (IH _ _ _ _ _ Hr H).
+    simpl in E. destruct (e_st (ent s c0)); try discriminate.
+    destruct (negb (e_canceled (ent s c0)) && (next_id s <? S n)); try discriminate. inversion E; subst. simpl. now apply upd_other.
+Qed.
+
+Lemma nodupb_NoDup : forall l, nodupb l = true -> NoDup l.
+Proof.
+  induction l as [|c r IH]; simpl; intros H; [constructor|].
+  apply andb_prop in H. destruct H as [A B]. constructor; auto.
+  intros Hin. apply memb_In in Hin. rewrite Hin in A. discriminate.
+Qed.
+
+Lemma build_labels_popped : forall takes f n s s', NoDup takes -> run s (build_labels f n takes) = Some s' ->
+  forall c, In c takes ->
+    (e_canceled (f c) = true /\ e_st (ent s' c) = Retired /\ e_comp (ent s' c) = e_comp (ent s c))
+    \/ (e_canceled (f c) = false /\ exists i, e_st (ent s' c) = Built i /\ In (i, c) (build_pairs f n takes)).
+Proof.
+  induction takes as [|c0 r IH]; simpl; intros f n s s' ND H c Hin; [tauto|].
+  inversion ND as [|? ? Hn ND']; subst.
+  destruct (e_canceled (f c0)) eqn:EC; cbn [run] in H.
+  - destruct (step s (DropCanceled c0)) as [s1|] eqn:E; [|discriminate].
+    destruct Hin as [E0|Hin].
+    + subst c. left. rewrite (build_labels_other _ _ _ _ _ _ Hn H).
+      simpl in E. destruct (e_st (ent s c0)); try discriminate. destruct (e_canceled (ent s c0)); try discriminate.
+      inversion E; subst. simpl. rewrite upd_same. simpl. auto.
+    + assert (c <> c0) by (intros E0; subst; tauto).
+      destruct (IH _ _ _ _ ND' H c Hin) as [(A & B & C)|(A & i & B & C)]; [left | right; eauto].
+      repeat split; auto. rewrite C.
+      simpl in E. destruct (e_st (ent s c0)); try discriminate. destruct (e_canceled (ent s c0)); try discriminate.
+      inversion E; subst. simpl. now rewrite upd_other.
+  - destruct (step s (Build c0 (S n))) as [s1|] eqn:E; [|discriminate].
+    destruct Hin as [E0|Hin].
+    + subst c. right. split; auto. exists (S n). split; [|now left]. rewrite (build_labels_other _ _ _ _ _ _ Hn H).
+      simpl in E. destruct (e_st (ent s c0)); try discriminate.
+      destruct (negb (e_canceled (ent s c0)) && (next_id s <? S n)); try discriminate. inversion E; subst. simpl. now rewrite upd_same.
+    + assert (c <> c0) by (intros E0; subst; tauto).
+      destruct (IH _ _ _ _ ND' H c Hin) as [(A & B & C)|(A & i & B & C)]; [left | right].
+      * repeat split; auto. rewrite C.
+        simpl in E. destruct (e_st (ent s c0)); try discriminate.
+        destruct (negb (e_canceled (ent s c0)) && (next_id s <? S n)); try discriminate. inversion E; subst. simpl. now rewrite upd_other.
+      * split; auto. exists i. split; auto. now right.
+Qed.
+
+Lemma round_nothing_lost : forall x lim takes x', xstep x (XBuildRound lim takes) = Some x' ->
+  forall c, In c (inb x) ->
+    (In c takes /\ e_canceled (ent (core x) c) = true /\ e_st (ent (core x') c) = Retired)
+    \/ (In c takes /\ e_canceled (ent (core x) c) = false /\ exists i, e_st (ent (core x') c) = Built i /\ In (i, c) (alloc (core x')))
+    \/ (~ In c takes /\ In c (inb x') /\ ent (core x') c = ent (core x) c).
+Proof.
+  intros x lim takes x' H c Hin. pose proof (round_ids_consecutive _ _ _ _ H) as (A & _). unfold xstep in H.
+  destruct (round_guard x lim takes) eqn:G; [|discriminate].
+  destruct (run (core x) (build_labels (ent (core x)) (next_id (core x)) takes)) eqn:E; [|discriminate].
+  inversion H; subst; clear H. cbn [core inb] in *.
+  unfold round_guard in G. apply andb_prop in G. destruct G as [G _]. apply andb_prop in G. destruct G as [_ G].
+  unfold round_ok in G. apply andb_prop in G. destruct G as [G _]. apply andb_prop in G. destruct G as [G _].
+  apply nodupb_NoDup in G.
+  destruct (in_dec Nat.eq_dec c takes) as [Ht|Hn].
+  - destruct (build_labels_popped _ _ _ _ _ G E c Ht) as [(P & Q & _)|(P & i & Q & R)]; [left; auto | right; left].
+    repeat split; auto. exists i. split; auto. rewrite A. apply in_or_app. left. now apply in_rev in R || (apply -> in_rev; exact R).
+  - right; right. split; auto. split; [|eapply build_labels_other; eauto].
+    apply filter_In. split; auto. destruct (memb c takes) eqn:M; auto. apply memb_In in M. tauto.
+Qed.
+
+(* the quota: entries are only left behind when the (soft) quota is used up *)
+Lemma round_quota : forall x lim takes x', xstep x (XBuildRound lim takes) = Some x' ->
+  inb x' = [] \/ exists l, lim = Some l /\ l <= counted (ent (core x)) (pri x) takes.
+Proof.
+  intros x lim takes x' H. unfold xstep in H.
+  destruct (round_guard x lim takes) eqn:G; [|discriminate].
+  destruct (run (core x) (build_labels (ent (core x)) (next_id (core x)) takes)); [|discriminate].
+  inversion H; subst; clear H. cbn [inb].
+  unfold round_guard in G. apply andb_prop in G. destruct G as [_ G]. unfold quota_ok in G.
+  apply orb_prop in G. destruct G as [G|G].
+  - left. rewrite forallb_forall in G. induction (inb x) as [|a r IH]; simpl; auto.
+    rewrite (G a (or_introl eq_refl)). simpl. apply IH. intros y Hy. apply G. now right.
+  - right. destruct lim as [l|]; [|discriminate]. exists l. split; auto. now apply Nat.leb_le.
 Qed.
 
 (* ---------------------------------------------------------------- a queued entry is only touched by its own steps *)
@@ -167,7 +256,7 @@ Lemma async_after_exit : forall x c l x', xreach x -> sendloop x = false -> asy 
   ent (core x') c = ent (core x) c /\ sendloop x' = false /\ asy x' c = true.
 Proof.
   intros x c l x' R HS HA HQ HC H N N'. pose proof (reachable_inv _ (xreach_core x R)) as I.
-  destruct l; simpl in H; rewrite ?HS in H; simpl in H; try discriminate.
+  destruct l; simpl in H; try unfold round_guard in H; rewrite ?HS in H; simpl in H; try discriminate.
   - destruct (e_st (ent (core x) c0)) eqn:ES; try discriminate. inversion H; subst; clear H. simpl.
     assert (c0 <> c) by (intros E; subst; congruence).
     rewrite upd_other by auto. repeat split; auto. unfold updb. destruct (Nat.eqb_spec c c0); congruence.
